@@ -29,12 +29,12 @@ claim("C12", "pbt E2+E1 (exhaustive small grid + rapid)",
       SEQ_NOTE, "DESIGN.md section 6, C12")
 claim("C13", "pbt E2+E1 (grid enumeration + rapid)",
       "exhaustive enumeration of (n,size) grid + rapid random cases against the partition definitions",
-      "Exploration: every (n,size) with n<=40,size<=45 (thorough: n<=120,size<=125) is enumerated and all six functions are compared with the definitions (piece count ceil(n/size), non-empty pieces, concatenation = input, window/pair i = s[i:i+size], Func variants see the same sequence), plus rapid cases up to n=300. The property is a pure function of (n,size), so a small exhaustive grid plus random larger sizes is the natural level.",
+      "Exploration: every (n,size) with n<=40,size<=45 (thorough: n<=120,size<=125), plus sizes next to MaxInt/2^62/2^32, is enumerated and all six functions are compared with the definitions (piece count ceil(n/size), non-empty pieces, concatenation = input, window/pair i = s[i:i+size], Func variants see the same sequence), plus rapid cases up to n=300. The property is a pure function of (n,size), so a small exhaustive grid plus random larger sizes is the natural level.",
       SEQ_NOTE + " Element type is int (the functions are type-generic and never inspect elements).",
       "DESIGN.md section 6, C13")
 claim("C14", "pbt E2+E1 (exhaustive short inputs + rapid)",
       "exhaustive enumeration of short slices x callback parameters + rapid inputs, each helper compared with a naive reference loop; input-untouched and result-is-new checked by snapshot and mutation",
-      "Exploration: every sequence over 0..2 up to length 5 with every callback parameter choice, rapid slices up to length 12 (poisoned spare capacity, nil slices) and rapid maps with duplicate values; every listed helper is compared with its straightforward definition (KeyOf as a validity predicate), the full-capacity input snapshot must be unchanged, every returned slice/map is overwritten to prove it is new (Trim results must be sub-slices).",
+      "Exploration: every sequence over 0..2 up to length 5 with every callback parameter choice, rapid slices up to length 12 (poisoned spare capacity, nil slices) and rapid maps with duplicate values; every listed helper is compared with its straightforward definition (KeyOf as a validity predicate), the full-capacity input snapshot must be unchanged after AND during every call (each callback first checks it), every returned slice/map is overwritten to prove it is new (Trim results must be sub-slices).",
       SEQ_NOTE + " Trim*Func follows the parameter name/non-Func behaviour (true => trimmed); one doc sentence says the opposite (upstream doc slip).",
       "DESIGN.md section 6, C14")
 claim("C15", "pbt E2+E1 (exhaustive key sequences + rapid)",
@@ -59,12 +59,12 @@ claim("C03", "pbt E2+E1 (exhaustive subset pairs x build recipes + rapid)",
       SEQ_NOTE, "DESIGN.md section 6, C03")
 claim("C04", "pbt E1 + E3 controlled scheduler + E4 -race stress",
       "model-based rapid op lists (sequential) + generated schedules driving the real code hook by hook (controlled scheduler) + free-running goroutines under the race detector; verdict by per-key linearizability checking of the recorded history and a three-clause Range rule",
-      "Exploration of histories AND schedules: the interleaving of sync2.Map's atomic steps is a generated, shrinkable input (E3: 2-4 threads x 1-3 ops over 1-3 keys, setup histories that reach amended/nil/expunged/promoted layouts, <=90 scheduling choices); every recorded history incl. a quiescent postlude must be linearizable per key (exact: linearizability is compositional over keys), Range obeys exactly the three listed clauses; E4 repeats the programs free-running under -race (any DATA RACE report is a violation). Not exhaustive over schedules.",
+      "Exploration of histories AND schedules: the interleaving of sync2.Map's atomic steps is a generated, shrinkable input (E3: 2-4 threads x 1-3 ops over 1-3 keys, setup histories that reach amended/nil/expunged/promoted layouts, <=90 scheduling choices; plus, for a catalogue of small programs, ALL schedules with at most 2 (thorough 3) non-default choices by stateless re-execution); every recorded history incl. a quiescent postlude must be linearizable per key (exact: linearizability is compositional over keys), Range obeys exactly the three listed clauses; E4 repeats the programs free-running under -race (any DATA RACE report is a violation). Not exhaustive over schedules.",
       CONC_NOTE + " E3 explores sequentially-consistent interleavings at hook granularity; Go map iteration order inside dirtyLocked/Range is not controlled (verdicts are computed on the history that actually ran; replay retries).",
       "DESIGN.md section 6, C04")
 claim("C05", "pbt E3 controlled scheduler + E4 -race stress",
       "generated schedules (controlled scheduler) and free-running -race repetitions of Set programs; verdict by per-value linearizability against a boolean register with existential outcome assignment for AddSet/RemoveSet/Len counts",
-      "Exploration of schedules: Add/Remove/Has/AddSet/RemoveSet/Len programs of 2-4 threads over 1-3 values with generated interleavings; 'successful Adds and Removes alternate starting with an Add, consistently with real time' is exactly per-value linearizability to a boolean register, checked incl. a quiescent postlude (final membership); bulk counts must equal the successes of SOME linearizable per-element assignment.",
+      "Exploration of schedules: Add/Remove/Has/AddSet/RemoveSet/Len programs of 2-4 threads over 1-3 values with generated interleavings, plus bounded-exhaustive enumeration (<=2, thorough <=3 non-default choices) of all schedules of a program catalogue; 'successful Adds and Removes alternate starting with an Add, consistently with real time' is exactly per-value linearizability to a boolean register, checked incl. a quiescent postlude (final membership); bulk counts must equal the successes of SOME linearizable per-element assignment.",
       CONC_NOTE, "DESIGN.md section 6, C05")
 claim("C06", "pbt E1 (lock-step differential vs container/list, container/ring)",
       "differential testing: rapid operation sequences applied in lock step to lists.List/Ring and the standard library's container/list, container/ring; return values, lengths, capped traversals and every handle's neighbours compared after every operation",
@@ -73,17 +73,17 @@ claim("C06", "pbt E1 (lock-step differential vs container/list, container/ring)"
       "DESIGN.md section 6, C06")
 claim("C09", "pbt E3 controlled scheduler + E4 -race stress",
       "generated section programs and schedules on KeyedMutex/KeyedRWMutex under the controlled scheduler with a per-key phase book (exclusion, Try* semantics, cross-key independence via blocked-thread analysis) + free-running -race stress with plain per-key counters",
-      "Exploration of schedules: 2-4 threads x nested Lock/TryLock/RLock/TryRLock sections on 1-3 never-seen keys (programs cannot deadlock on a correct implementation by construction), <=120 scheduling choices; never two incompatible holders; Try* false only with an incompatible section present during the call; a thread found blocked at a key-lock hook needs an incompatible holder of THAT key; Try* never blocked in sync.*; no deadlock/panic/fatal error; E4: plain counters under -race + occupancy asserts.",
+      "Exploration of schedules: 2-4 threads x nested Lock/TryLock/RLock/TryRLock sections on 1-3 never-seen keys (programs cannot deadlock on a correct implementation by construction), <=120 scheduling choices, plus bounded-exhaustive enumeration of all schedules with <=2 (thorough <=3) non-default choices of a section-program catalogue; never two incompatible holders; Try* false only with an incompatible section present during the call; a thread found blocked at a key-lock hook needs an incompatible holder of THAT key; Try* never blocked in sync.*; no deadlock/panic/fatal error; E4: plain counters under -race + occupancy asserts.",
       CONC_NOTE + " A waiting RWMutex writer is parked before calling Lock in E3, so writer preference inside sync.RWMutex is exercised by E4 only. ClearKey only in quiescence, as the statement restricts.",
       "DESIGN.md section 6, C09")
 claim("C10", "pbt E5 (scenario scripts with harness-controlled receivers; crash-prone class in child processes)",
-      "rapid-generated scripts of publish/subscribe/unsubscribe steps with drain/gated/never receivers; conservation (exactly-once), order, return-after-hand-off (goroutine-state classifier, no timers as verdicts), timeout accounting, Unsub/WithOnly semantics; known crash class isolated in child processes",
-      "Exploration: scripts over all six publish variants, Sub/SubBuf, Unsub (known/removed/foreign/nil), UnsubAll, WithOnly, three timeout configs; each channel's receiver log is compared with what was published to it while subscribed (exactly once, nothing else, Sync order); Wait/Sync returns are checked against buffers / observed blocked until the harness opens a gate; 'lost' is declared only when no PubSub goroutine is in flight. The known finding (Unsub vs in-flight async send => send on closed channel) is excluded by construction from the main search and re-demonstrated in child processes on every run.",
+      "rapid-generated scripts of publish/subscribe/unsubscribe steps with drain/gated/never receivers, persistent WithOnly clones and a background goroutine subscribing/unsubscribing concurrently; conservation (exactly-once), order, return-after-hand-off (goroutine-state classifier, no timers as verdicts), timeout accounting, Unsub/WithOnly semantics; known crash class isolated in child processes",
+      "Exploration: scripts over all six publish variants, Sub/SubBuf, Unsub (known/removed/foreign/nil), UnsubAll, WithOnly, three timeout configs; each channel's receiver log is compared with what was published to it while subscribed (exactly once, nothing else, Sync order); Wait/Sync returns are checked against buffers / observed blocked until the harness opens a gate; 'lost' is declared only when no PubSub goroutine is in flight. Subscriptions made concurrently by a background goroutine are judged by invocation/response stamps (must / may / must not receive). The two known findings (Unsub vs in-flight asynchronous send; publish through a WithOnly clone whose channel the original has closed - both 'send on closed channel') are excluded by construction from the main search (counted) and re-demonstrated in child processes on every run; any other process death is a violation.",
       "Trusts Go channels/timers (not controlled: async sends are awaited, not scheduled), the goroutine-state parser, and that the harness's own goroutines are leak-free between cases. Liveness ('eventually') is only decided in the negative when nothing is in flight.",
       "DESIGN.md section 6, C10")
 claim("C17", "pbt E4 (free-running under -race with a harness gate inside the action)",
       "rapid scenarios of concurrent and late Do callers with per-caller functions held open by a harness gate; exactly-one-invocation, shared results, no return before completion, visibility via a plain flag under the race detector",
-      "Exploration: Once1/2/3 x 1-8 early callers x 0-4 late callers x GOMAXPROCS/stagger; while the harness keeps the action's gate closed no Do may have returned and no second function may have started (sound: asserted only on observation); afterwards all callers hold the invoked function's values and read a plain completion flag (race detector proves the happens-before edge).",
+      "Exploration: Once1/2/3 x 1-8 early callers x 0-4 late callers x GOMAXPROCS/stagger (one case in six with panicking actions: still exactly one invocation); while the harness keeps the action's gate closed no Do may have returned and no second function may have started (sound: asserted only on observation); afterwards all callers hold the invoked function's values and read a plain completion flag (race detector proves the happens-before edge).",
       "sync.Once's internals are not instrumented: windows inside a single call are reached by free-running repetition only. " + CONC_NOTE,
       "DESIGN.md section 6, C17")
 claim("C18", "pbt E1 + E4 -race stress",
@@ -92,7 +92,7 @@ claim("C18", "pbt E1 + E4 -race stress",
       "stdlib wrappers are not instrumented: windows inside one call are reached by repetition only. " + CONC_NOTE,
       "DESIGN.md section 6, C18")
 claim("C19", "pbt E2 + E5 (exhaustive queued grid + timed scenarios with gates)",
-      "exhaustive enumeration of capacity x fill x closed x limit for RecvQueued/RecvQueuedFull + rapid scenarios of the timed/context helpers with none/gated/racing peers; conservation oracle on the far side of the channel; blocking established from goroutine state",
+      "exhaustive enumeration of capacity x fill x closed x limit (x spare buffer capacity) for RecvQueued/RecvQueuedFull, concurrent drainers on one channel + rapid scenarios of the timed/context helpers with none/gated/racing peers; conservation oracle on the far side of the channel; blocking established from goroutine state",
       "Exploration, exhaustive for the queued helpers on the small grid: results must be exactly the first min(fill,limit) queued values, the rest still queued, no zero padding after close, never blocking. Timed helpers: true <=> the value is found exactly once on the far side, false <=> not found / nothing consumed; forced outcomes in asymmetric classes; 'must wait' asserted only while the harness itself withholds the peer; either outcome where operation and limit can both be ready.",
       "Trusts Go channels/timers and the goroutine-state parser; racing classes accept either outcome and only check conservation.",
       "DESIGN.md section 6, C19")
